@@ -34,6 +34,22 @@ Proof.
     + intros ([|i] & Hi & H); [left; auto|right; exists i; split; [lia|auto]].
 Qed.
 
+Lemma filter_id_in {A} (f : A -> bool) l : (forall x, In x l -> f x = true) -> filter f l = l.
+Proof.
+  induction l as [|a l IH]; intros H; cbn [filter]; [reflexivity|].
+  rewrite (H a (or_introl eq_refl)). f_equal. apply IH. intros x Hx. apply H. right; exact Hx.
+Qed.
+
+Lemma Permutation_filter_compat {A} (f : A -> bool) l l' :
+  Permutation l l' -> Permutation (filter f l) (filter f l').
+Proof.
+  induction 1 as [|x l l' P IH|x y l|l l' l'' P1 IH1 P2 IH2]; cbn [filter].
+  - constructor.
+  - destruct (f x); [constructor|]; exact IH.
+  - destruct (f x), (f y); try apply Permutation_refl. constructor.
+  - eapply Permutation_trans; eauto.
+Qed.
+
 (* ---------- association lists with distinct keys ---------- *)
 
 Fixpoint assoc (k : N) (l : list entry) : option N :=
@@ -79,7 +95,7 @@ Definition ref := list entry.
 Definition ref_set (k v : N) (r : ref) : ref := map (fun e => if N.eqb (fst e) k then (fst e, v) else e) r.
 Definition ref_del (k : N) (r : ref) : ref := filter (fun e => negb (N.eqb (fst e) k)) r.
 
-Inductive rout := RUnit | RVal (v : option N) | RList.
+Inductive rout := RUnit | RVal (v : option N) | RList (l : list entry).
 
 Definition ref_step (r : ref) (o : op) : ref * rout :=
   match o with
@@ -89,7 +105,7 @@ Definition ref_step (r : ref) (o : op) : ref * rout :=
                     | None => ((k, v) :: r, RVal None) end
   | Get k => (r, RVal (assoc k r))
   | Remove k => (ref_del k r, RVal (assoc k r))
-  | Iterate => (r, RList)
+  | Iterate => (r, RList r)
   | Size => (r, RVal (Some (N.of_nat (length r))))
   end.
 
@@ -141,7 +157,7 @@ Proof. apply upd_nth_length. Qed.
 
 Lemma push_front_perm c t e : 0 < c -> length t = c ->
   Permutation (concat (push_front hash t c e)) (e :: concat t).
-Proof. intros H L. apply concat_upd_nth_cons. rewrite L. apply bucket_lt; auto. Qed.
+Proof. intros H L. apply concat_upd_nth_cons. subst c. apply bucket_lt; auto. Qed.
 
 Lemma push_front_chains c t e : 0 < c -> length t = c -> chains_ok c t ->
   chains_ok c (push_front hash t c e).
@@ -197,8 +213,9 @@ Lemma grow_spec m : Inv m ->
   /\ size (grow_if_full hash m) = size m /\ size m < cap (grow_if_full hash m).
 Proof.
   intros I. unfold grow_if_full. destruct (Nat.leb_spec (cap m) (size m)).
-  - destruct (rehash_spec m I) as (I' & P & C). repeat split; auto.
-  - repeat split; auto.
+  - destruct (rehash_spec m I) as (I' & P & C).
+    split; [exact I'|]. split; [exact P|]. split; [reflexivity|exact C].
+  - split; [exact I|]. split; [apply Permutation_refl|]. split; [reflexivity|lia].
 Qed.
 
 (* ----- lookup ----- *)
@@ -278,7 +295,7 @@ Lemma chain_remove_spec k ch : NoDup (map fst ch) -> chain_remove k ch = ref_del
 Proof.
   induction ch as [|[a b] ch IH]; simpl; auto. intros ND. inversion ND as [|? ? Hn ND']; subst.
   destruct (N.eqb_spec a k); simpl.
-  - subst. symmetry. unfold ref_del. apply forallb_filter_id. apply forallb_forall.
+  - subst. symmetry. unfold ref_del. apply filter_id_in.
     intros [a b'] Hin. simpl. destruct (N.eqb_spec a k); auto. subst. exfalso. apply Hn.
     change k with (fst (k, b')). apply in_map; auto.
   - f_equal. apply IH; auto.
@@ -292,7 +309,7 @@ Qed.
 
 Lemma ref_del_other k l : ~ In k (map fst l) -> ref_del k l = l.
 Proof.
-  intros H. unfold ref_del. apply forallb_filter_id. apply forallb_forall. intros [a b] Hin. simpl.
+  intros H. unfold ref_del. apply filter_id_in. intros [a b] Hin. simpl.
   destruct (N.eqb_spec a k); auto. subst. exfalso; apply H. change k with (fst (k, b)). apply in_map; auto.
 Qed.
 
@@ -310,7 +327,7 @@ Lemma only_in_bucket m k : Inv m -> 0 < cap m ->
   let l2 := concat (skipn (S b) (table m)) in
   entries m = l1 ++ nth b (table m) [] ++ l2 /\
     ~ In k (map fst l1) /\ ~ In k (map fst l2) /\ NoDup (map fst (nth b (table m) [])) /\
-    forall f, entries (mk_hm (upd_nth (table m) b f) (size m)) = l1 ++ f (nth b (table m) []) ++ l2.
+    forall f sz, entries (mk_hm (upd_nth (table m) b f) sz) = l1 ++ f (nth b (table m) []) ++ l2.
 Proof.
   intros I Hc b l1 l2. assert (Hb : b < cap m) by (apply bucket_lt; auto).
   pose proof (concat_split (table m) b Hb) as E1. fold l1 l2 in E1.
@@ -331,5 +348,333 @@ Proof.
     + change k with (fst (k, v)). apply in_map; auto.
     + change k with (fst (k, v)). apply in_map; auto.
   - apply NoDup_app_r in ND. apply NoDup_app_l in ND. auto.
-  - intros f. simpl. apply concat_upd_split; auto.
+  - intros f sz. simpl. apply concat_upd_split; auto.
+Qed.
+
+Lemma cap_pos m : Inv m -> size m <> 0 -> 0 < cap m.
+Proof.
+  intros I Hs. destruct (table m) eqn:Et; [|unfold cap; rewrite Et; simpl; lia].
+  exfalso. apply Hs. rewrite (inv_size m I). unfold entries. rewrite Et. reflexivity.
+Qed.
+
+Lemma upd_chains_ok c t b f : chains_ok c t ->
+  (forall ch e, In e (f ch) -> exists e', In e' ch /\ fst e' = fst e) ->
+  chains_ok c (upd_nth t b f).
+Proof.
+  intros Hok Hf i e Hi Hin. rewrite upd_nth_length in Hi.
+  destruct (Nat.eq_dec b i) as [<-|Hne].
+  - rewrite nth_upd_nth_same in Hin by exact Hi.
+    apply Hf in Hin. destruct Hin as (e' & Hin' & <-). apply Hok; auto.
+  - rewrite nth_upd_nth_other in Hin by exact Hne. apply Hok; auto.
+Qed.
+
+Lemma chain_set_in k v ch e : In e (chain_set k v ch) -> exists e', In e' ch /\ fst e' = fst e.
+Proof.
+  induction ch as [|[a b] ch IH]; cbn [chain_set]; [intros []|].
+  destruct (N.eqb a k).
+  - intros [<-|H]; [exists (a, b); split; [left; reflexivity|reflexivity]|exists e; split; [right; exact H|reflexivity]].
+  - intros [<-|H]; [exists (a, b); split; [left; reflexivity|reflexivity]|].
+    destruct (IH H) as (e' & H1 & H2). exists e'; split; [right; exact H1|exact H2].
+Qed.
+
+Lemma chain_remove_in k ch e : In e (chain_remove k ch) -> exists e', In e' ch /\ fst e' = fst e.
+Proof.
+  induction ch as [|[a b] ch IH]; cbn [chain_remove]; [intros []|].
+  destruct (N.eqb a k).
+  - intros H. exists e; split; [right; exact H|reflexivity].
+  - intros [<-|H]; [exists (a, b); split; [left; reflexivity|reflexivity]|].
+    destruct (IH H) as (e' & H1 & H2). exists e'; split; [right; exact H1|exact H2].
+Qed.
+
+Lemma chain_remove_length k v ch : assoc k ch = Some v -> S (length (chain_remove k ch)) = length ch.
+Proof.
+  induction ch as [|[a b] ch IH]; cbn [assoc chain_remove]; [discriminate|].
+  destruct (N.eqb a k); [reflexivity|]. intros H. cbn [length]. f_equal. apply IH; exact H.
+Qed.
+
+Lemma ref_set_app k v l1 l2 : ref_set k v (l1 ++ l2) = ref_set k v l1 ++ ref_set k v l2.
+Proof. apply map_app. Qed.
+Lemma ref_del_app k l1 l2 : ref_del k (l1 ++ l2) = ref_del k l1 ++ ref_del k l2.
+Proof. apply filter_app. Qed.
+
+(* the chain looked at by get / operator[] / remove answers for the whole entry list *)
+Lemma bucket_lookup m k : Inv m -> size m <> 0 ->
+  chain_find k (nth (bucket_of hash (cap m) k) (table m) []) = assoc k (entries m).
+Proof.
+  intros I Hs. pose proof (get_spec m k I) as G. unfold get in G.
+  destruct (size m); [contradiction|exact G].
+Qed.
+
+(* ----- operator[] followed by assignment ----- *)
+Lemma index_set_spec m k v : Inv m ->
+  let m' := fst (index_set hash k v m) in
+  let r := snd (index_set hash k v m) in
+  r = assoc k (entries m) /\ Inv m' /\
+  Permutation (entries m')
+    (match r with Some _ => ref_set k v (entries m) | None => (k, v) :: entries m end).
+Proof.
+  intros I. cbv zeta. unfold index_set. destruct (size m) eqn:Es.
+  - (* empty map: rehash() unconditionally, then link *)
+    assert (E0 : entries m = []).
+    { pose proof (inv_size m I) as Hs. rewrite Es in Hs. destruct (entries m); [reflexivity|discriminate]. }
+    destruct (rehash_spec m I) as (I1 & P1 & C1). rewrite E0 in P1.
+    apply Permutation_sym, Permutation_nil in P1.
+    assert (Hk1 : ~ In k (map fst (entries (rehash hash m)))) by (rewrite P1; intros []).
+    assert (Hc1 : 0 < cap (rehash hash m)) by lia.
+    destruct (push_entry_spec (rehash hash m) k v I1 Hc1 Hk1) as (I2 & P2).
+    assert (S1 : S (size (rehash hash m)) = 1) by (cbn [rehash size]; rewrite Es; reflexivity).
+    rewrite S1 in I2, P2. cbn [fst snd]. rewrite E0. cbn [assoc].
+    split; [reflexivity|]. split; [exact I2|]. rewrite P1 in P2. exact P2.
+  - assert (Hs : size m <> 0) by lia. rewrite <- Es. clear n Es.
+    rewrite (bucket_lookup m k I Hs).
+    destruct (assoc k (entries m)) as [old|] eqn:E; cbn [fst snd].
+    + (* hit: the value is overwritten in place *)
+      pose proof (cap_pos m I Hs) as Hc.
+      destruct (only_in_bucket m k I Hc) as (E1 & N1 & N2 & NDb & Eupd).
+      set (b := bucket_of hash (cap m) k) in *.
+      assert (Eent : entries (mk_hm (upd_nth (table m) b (chain_set k v)) (size m)) = ref_set k v (entries m)).
+      { rewrite Eupd, E1, !ref_set_app, (ref_set_other k v _ N1), (ref_set_other k v _ N2).
+        rewrite chain_set_spec by exact NDb. reflexivity. }
+      split; [reflexivity|]. split; [|rewrite Eent; apply Permutation_refl].
+      split.
+      * rewrite Eent. cbn [size]. unfold ref_set. rewrite map_length. apply (inv_size m I).
+      * rewrite Eent, ref_set_keys. apply (inv_nodup m I).
+      * unfold cap; cbn [table]. rewrite upd_nth_length. apply upd_chains_ok; [apply (inv_chains m I)|].
+        intros ch e. apply chain_set_in.
+    + (* miss: same path as insert *)
+      split; [reflexivity|]. apply assoc_none in E.
+      exact (insert_spec m k v I E).
+Qed.
+
+(* ----- remove ----- *)
+Lemma remove_spec m k : Inv m ->
+  let m' := fst (remove hash k m) in
+  let r := snd (remove hash k m) in
+  r = assoc k (entries m) /\ Inv m' /\ entries m' = ref_del k (entries m).
+Proof.
+  intros I. cbv zeta. unfold remove. destruct (size m) eqn:Es.
+  - assert (E0 : entries m = []).
+    { pose proof (inv_size m I) as Hs. rewrite Es in Hs. destruct (entries m); [reflexivity|discriminate]. }
+    cbn [fst snd]. rewrite E0. split; [reflexivity|]. split; [exact I|reflexivity].
+  - assert (Hs : size m <> 0) by lia. rewrite <- Es. clear n Es.
+    rewrite (bucket_lookup m k I Hs).
+    destruct (assoc k (entries m)) as [old|] eqn:E; cbn [fst snd].
+    + pose proof (cap_pos m I Hs) as Hc.
+      destruct (only_in_bucket m k I Hc) as (E1 & N1 & N2 & NDb & Eupd).
+      set (b := bucket_of hash (cap m) k) in *.
+      assert (Eb : assoc k (nth b (table m) []) = Some old).
+      { rewrite <- chain_find_assoc. unfold b. rewrite (bucket_lookup m k I Hs). exact E. }
+      assert (Eent : entries (mk_hm (upd_nth (table m) b (chain_remove k)) (pred (size m))) = ref_del k (entries m)).
+      { rewrite Eupd, E1, !ref_del_app, (ref_del_other k _ N1), (ref_del_other k _ N2).
+        rewrite chain_remove_spec by exact NDb. reflexivity. }
+      split; [reflexivity|]. split; [|exact Eent].
+      split.
+      * rewrite Eent. cbn [size]. rewrite (inv_size m I).
+        rewrite E1, !ref_del_app, (ref_del_other k _ N1), (ref_del_other k _ N2), !app_length.
+        rewrite <- chain_remove_spec by exact NDb.
+        pose proof (chain_remove_length k old _ Eb). lia.
+      * rewrite Eent. apply ref_del_keys_nodup. apply (inv_nodup m I).
+      * unfold cap; cbn [table]. rewrite upd_nth_length. apply upd_chains_ok; [apply (inv_chains m I)|].
+        intros ch e. apply chain_remove_in.
+    + split; [reflexivity|]. split; [exact I|]. symmetry. apply ref_del_other. apply assoc_none. exact E.
+Qed.
+
+Lemma iterate_entries m : Inv m -> iterate m = entries m.
+Proof.
+  intros I. unfold iterate. destruct (size m) eqn:Es; [|reflexivity].
+  pose proof (inv_size m I) as Hs. rewrite Es in Hs. destruct (entries m); [reflexivity|discriminate].
+Qed.
+
+(* ----- simulation of the reference association list ----- *)
+Definition Sim (m : hm) (r : ref) : Prop := Inv m /\ Permutation (entries m) r.
+
+Inductive out_ok : out -> rout -> Prop :=
+| ok_unit : out_ok OUnit RUnit
+| ok_val v : out_ok (OVal v) (RVal v)
+| ok_list l r : Permutation l r -> NoDup (map fst l) -> out_ok (OList l) (RList r).
+
+Lemma Sim_nodup m r : Sim m r -> NoDup (map fst r).
+Proof. intros [I P]. eapply Permutation_NoDup; [apply Permutation_map, P|apply (inv_nodup m I)]. Qed.
+
+Lemma Sim_assoc m r k : Sim m r -> assoc k (entries m) = assoc k r.
+Proof. intros [I P]. apply assoc_perm; [apply (inv_nodup m I)|exact P]. Qed.
+
+Lemma step_sim m r o : Sim m r -> op_ok r o ->
+  Sim (fst (step hash m o)) (fst (ref_step r o)) /\ out_ok (snd (step hash m o)) (snd (ref_step r o)).
+Proof.
+  intros S Hok. pose proof S as [I P]. destruct o as [k v|k v|k|k| |]; cbn [step ref_step op_ok] in *.
+  - (* insert *)
+    assert (Hk : ~ In k (map fst (entries m))).
+    { intros H; apply Hok. eapply Permutation_in; [apply Permutation_map, P|exact H]. }
+    destruct (insert_spec m k v I Hk) as (I' & P'). cbn [fst snd]. split; [|constructor].
+    split; [exact I'|]. eapply Permutation_trans; [exact P'|]. constructor; exact P.
+  - (* operator[] = v *)
+    destruct (index_set_spec m k v I) as (Er & I' & P').
+    destruct (index_set hash k v m) as [m' r0]. cbn [fst snd] in *. subst r0.
+    rewrite <- (Sim_assoc m r k S).
+    destruct (assoc k (entries m)) as [old|]; cbn [fst snd]; (split; [|constructor]); (split; [exact I'|]).
+    + eapply Permutation_trans; [exact P'|]. unfold ref_set. apply Permutation_map. exact P.
+    + eapply Permutation_trans; [exact P'|]. constructor; exact P.
+  - (* get / find *)
+    cbn [fst snd]. split; [exact S|]. rewrite (get_spec m k I), (Sim_assoc m r k S). constructor.
+  - (* remove *)
+    destruct (remove_spec m k I) as (Er & I' & E').
+    destruct (remove hash k m) as [m' r0]. cbn [fst snd] in *. subst r0.
+    rewrite (Sim_assoc m r k S). split; [|constructor]. split; [exact I'|].
+    rewrite E'. unfold ref_del. apply Permutation_filter_compat. exact P.
+  - (* iterate *)
+    cbn [fst snd]. split; [exact S|]. rewrite (iterate_entries m I).
+    constructor; [exact P|apply (inv_nodup m I)].
+  - (* size *)
+    cbn [fst snd]. split; [exact S|]. rewrite (inv_size m I), (Permutation_length P). constructor.
+Qed.
+
+End Proofs.
+
+(* ---------- histories ---------- *)
+
+Fixpoint ref_run (r : ref) (ops : list op) : ref * list rout :=
+  match ops with
+  | [] => (r, [])
+  | o :: rest => let '(r1, x) := ref_step r o in let '(r2, xs) := ref_run r1 rest in (r2, x :: xs)
+  end.
+
+(* histories in which insert is only called with keys that are absent at that moment *)
+Definition inserts_absent (ops : list op) : Prop := ops_ok [] ops.
+
+Fixpoint ops_okb (r : ref) (ops : list op) : bool :=
+  match ops with
+  | [] => true
+  | o :: rest =>
+    match o with Insert k _ => match assoc k r with None => true | Some _ => false end | _ => true end
+    && ops_okb (fst (ref_step r o)) rest
+  end.
+
+Lemma ops_okb_sound r ops : ops_okb r ops = true -> ops_ok r ops.
+Proof.
+  revert r; induction ops as [|o ops IH]; intros r H; cbn [ops_ok ops_okb] in *; [exact Logic.I|].
+  apply andb_true_iff in H. destruct H as [H1 H2]. split; [|apply IH; exact H2].
+  destruct o; cbn [op_ok]; try exact Logic.I.
+  apply assoc_none. destruct (assoc k r); [discriminate|reflexivity].
+Qed.
+
+Lemma inserts_absentb_sound ops : ops_okb [] ops = true -> inserts_absent ops.
+Proof. apply ops_okb_sound. Qed.
+
+Lemma run_sim hash ops : forall m r, Sim hash m r -> ops_ok r ops ->
+  Sim hash (fst (run hash m ops)) (fst (ref_run r ops)) /\
+  Forall2 out_ok (snd (run hash m ops)) (snd (ref_run r ops)).
+Proof.
+  induction ops as [|o ops IH]; intros m r S Hok; cbn [run ref_run].
+  - cbn [fst snd]. split; [exact S|constructor].
+  - destruct Hok as [Ho Hrest].
+    destruct (step_sim hash m r o S Ho) as (S1 & O1).
+    destruct (step hash m o) as [m1 x]. destruct (ref_step r o) as [r1 y]. cbn [fst snd] in *.
+    destruct (IH m1 r1 S1 Hrest) as (S2 & O2).
+    destruct (run hash m1 ops) as [m2 xs]. destruct (ref_run r1 ops) as [r2 ys]. cbn [fst snd] in *.
+    split; [exact S2|constructor; assumption].
+Qed.
+
+Lemma Sim_empty hash : Sim hash empty_hm [].
+Proof. split; [apply Inv_empty|apply Permutation_refl]. Qed.
+
+(* the invariant in the words of DESIGN.md C14 *)
+Definition hm_inv (hash : N -> N) (m : hm) : Prop :=
+  (forall i e, i < length (table m) -> In e (nth i (table m) []) -> bucket_of hash (cap m) (fst e) = i) /\
+  NoDup (map fst (concat (table m))) /\
+  size m = length (concat (table m)) /\
+  length (table m) = cap m /\
+  (0 < cap m \/ size m = 0).
+
+Lemma hm_inv_Inv hash m : hm_inv hash m <-> Inv hash m.
+Proof.
+  split.
+  - intros (C & ND & Sz & _ & _). split; assumption.
+  - intros I. split; [apply (inv_chains hash m I)|]. split; [apply (inv_nodup hash m I)|].
+    split; [apply (inv_size hash m I)|]. split; [reflexivity|].
+    destruct (size m) eqn:Es; [right; reflexivity|left]. apply (cap_pos hash m I). lia.
+Qed.
+
+Lemma hm_inv_empty hash : hm_inv hash empty_hm.
+Proof. apply hm_inv_Inv, Inv_empty. Qed.
+
+(* preserved by every operation, for every hash; insert needs its documented precondition *)
+Lemma hm_inv_step hash m o : hm_inv hash m ->
+  (forall k v, o = Insert k v -> get hash k m = None) ->
+  hm_inv hash (fst (step hash m o)).
+Proof.
+  intros H Hins. apply hm_inv_Inv in H. apply hm_inv_Inv.
+  assert (S : Sim hash m (entries m)) by (split; [exact H|apply Permutation_refl]).
+  refine (proj1 (proj1 (step_sim hash m (entries m) o S _))).
+  destruct o; cbn [op_ok]; try exact Logic.I.
+  apply assoc_none. rewrite <- (get_spec hash m k H). apply (Hins k v eq_refl).
+Qed.
+
+Lemma hm_inv_run hash ops : inserts_absent ops -> hm_inv hash (fst (run hash empty_hm ops)).
+Proof.
+  intros H. apply hm_inv_Inv. exact (proj1 (proj1 (run_sim hash ops empty_hm [] (Sim_empty hash) H))).
+Qed.
+
+(* the refinement statement of C14 *)
+Lemma hm_refines_map hash ops : inserts_absent ops ->
+  let m := fst (run hash empty_hm ops) in
+  let r := fst (ref_run [] ops) in
+  Forall2 out_ok (snd (run hash empty_hm ops)) (snd (ref_run [] ops)) /\
+  size m = length r /\
+  Permutation (iterate m) r /\
+  NoDup (map fst (iterate m)).
+Proof.
+  intros H m r. destruct (run_sim hash ops empty_hm [] (Sim_empty hash) H) as ([I P] & O).
+  fold m in I, P. fold r in P.
+  split; [exact O|]. rewrite (iterate_entries hash m I).
+  split; [rewrite (inv_size hash m I); apply Permutation_length; exact P|].
+  split; [exact P|apply (inv_nodup hash m I)].
+Qed.
+
+(* what the reference says about the individual operations (the reference is the specification,
+   these lemmas show it is the intended one) *)
+Lemma ref_remove_absent k r : assoc k (ref_del k r) = None.
+Proof.
+  apply assoc_none. intros H. apply in_map_iff in H. destruct H as ([a b] & Hk & Hin).
+  cbn [fst] in Hk. subst a. unfold ref_del in Hin. apply filter_In in Hin. destruct Hin as [_ Hf].
+  cbn [fst] in Hf. rewrite N.eqb_refl in Hf. discriminate.
+Qed.
+
+Lemma ref_remove_other k k' r : k' <> k -> assoc k' (ref_del k r) = assoc k' r.
+Proof.
+  intros Hne. induction r as [|[a b] r IH]; [reflexivity|]. cbn [ref_del filter fst].
+  destruct (N.eqb_spec a k) as [->|Ha]; cbn [negb].
+  - cbn [assoc]. destruct (N.eqb_spec k k'); [congruence|]. exact IH.
+  - cbn [assoc]. destruct (N.eqb a k'); [reflexivity|exact IH].
+Qed.
+
+Lemma ref_set_same k v r old : assoc k r = Some old -> assoc k (ref_set k v r) = Some v.
+Proof.
+  induction r as [|[a b] r IH]; cbn [assoc ref_set map fst]; [discriminate|].
+  destruct (N.eqb_spec a k) as [->|Ha]; cbn [assoc fst].
+  - rewrite N.eqb_refl. reflexivity.
+  - destruct (N.eqb_spec a k); [contradiction|]. exact IH.
+Qed.
+
+Lemma ref_set_length k v r : length (ref_set k v r) = length r.
+Proof. apply map_length. Qed.
+
+Lemma ref_remove_spec k k' r :
+  assoc k (ref_del k r) = None /\ (k' <> k -> assoc k' (ref_del k r) = assoc k' r).
+Proof. split; [apply ref_remove_absent|apply ref_remove_other]. Qed.
+
+Lemma ref_index_hit_spec k v r old :
+  assoc k r = Some old -> assoc k (ref_set k v r) = Some v /\ length (ref_set k v r) = length r.
+Proof. intros H. split; [eapply ref_set_same; exact H|apply ref_set_length]. Qed.
+
+(* after remove(k) the key is absent in the map itself *)
+Lemma hm_remove_absent hash ops k : inserts_absent (ops ++ [Remove k]) ->
+  get hash k (fst (run hash empty_hm (ops ++ [Remove k]))) = None.
+Proof.
+  intros H. destruct (run_sim hash _ empty_hm [] (Sim_empty hash) H) as (S & _).
+  rewrite (get_spec hash _ k (proj1 S)), (Sim_assoc hash _ _ k S).
+  clear S H. generalize (@nil entry). induction ops as [|o ops IH]; intros r; cbn [app ref_run].
+  - cbn [ref_step fst]. apply ref_remove_absent.
+  - destruct (ref_step r o) as [r1 y]. specialize (IH r1).
+    destruct (ref_run r1 (ops ++ [Remove k])) as [r2 ys]. exact IH.
 Qed.
